@@ -80,6 +80,15 @@ def expand : SExpr → PExpr
   | .call2 o l r => mkBin o (expand l) (expand r)
 
 /-! ### static evaluation (one node, children already done) -/
+def tenPow : Nat → Nat
+  | 0 => 1
+  | n + 1 => 10 * tenPow n
+
+/-- `Literal == Literal` on literals of one kind: floats compare by value -/
+def Lit.same : Lit → Lit → Bool
+  | .float m e, .float m' e' => m * tenPow e' == m' * tenPow e
+  | x, y => x == y
+
 /-- `Literal::as_ref()`: the variant name -/
 def Lit.kind : Lit → Nat
   | .null => 0 | .int _ => 1 | .bool _ => 2 | .float _ _ => 3 | .str _ => 4
@@ -93,8 +102,8 @@ def evalUn (o : UnOp) (a : PExpr) : PExpr :=
 
 def evalBin (o : BinOp) (a b : PExpr) : PExpr :=
   match o, a, b with
-  | .Eq, .lit x, .lit y => if x.kind = y.kind then .lit (.bool (x == y)) else .bin o a b
-  | .Ne, .lit x, .lit y => if x.kind = y.kind then .lit (.bool (x != y)) else .bin o a b
+  | .Eq, .lit x, .lit y => if x.kind = y.kind then .lit (.bool (x.same y)) else .bin o a b
+  | .Ne, .lit x, .lit y => if x.kind = y.kind then .lit (.bool !(x.same y)) else .bin o a b
   | .And, .lit (.bool x), .lit (.bool y) => .lit (.bool (x && y))
   | .Or, .lit (.bool x), .lit (.bool y) => .lit (.bool (x || y))
   | .Coalesce, .lit .null, b => b
@@ -113,28 +122,25 @@ def evalCase (e : PExpr) : PExpr :=
   | .caseB (.lit (.bool true)) v .caseEnd => v
   | e' => e'
 
-/-- children first; a `case` list is simplified once, at its head -/
-def staticEval : PExpr → PExpr
-  | .un o a => evalUn o (staticEval a)
-  | .bin o a b => evalBin o (staticEval a) (staticEval b)
-  | .caseB c v rest => evalCase (.caseB (staticEval c) (staticEval v) (staticTail rest))
-  | .caseEnd => evalCase .caseEnd
-  | .between x lo hi => mkIn (staticEval x) (staticEval lo) (staticEval hi)   -- bounds are resolved before `in` looks at them
-  | .fn1 f x => .fn1 f (staticEval x)
-  | e => e
-where
-  /-- the remaining branches of the same `case`: their conditions and values are evaluated, the list is not pruned yet -/
-  staticTail : PExpr → PExpr
-  | .caseB c v rest => .caseB (staticEval c) (staticEval v) (staticTail rest)
-  | .caseEnd => .caseEnd
-  | e => staticEval e
+/-- children first; a `case` list is simplified once, at its head.
+`tail = true`: the expression is the remaining branch list of an enclosing `case` (conditions and values are evaluated,
+the list itself is pruned by the head) -/
+def sev : Bool → PExpr → PExpr
+  | _, .un o a => evalUn o (sev false a)
+  | _, .bin o a b => evalBin o (sev false a) (sev false b)
+  | false, .caseB c v rest => evalCase (.caseB (sev false c) (sev false v) (sev true rest))
+  | true, .caseB c v rest => .caseB (sev false c) (sev false v) (sev true rest)
+  | false, .caseEnd => evalCase .caseEnd
+  | true, .caseEnd => .caseEnd
+  | _, .between x lo hi => mkIn (sev false x) (sev false lo) (sev false hi)   -- bounds are resolved before `in` looks at them
+  | _, .fn1 f x => .fn1 f (sev false x)
+  | _, .col i => .col i
+  | _, .lit l => .lit l
+
+def staticEval (e : PExpr) : PExpr := sev false e
 
 /-! ### meaning -/
 abbrev Env := List Value
-
-def tenPow : Nat → Nat
-  | 0 => 1
-  | n + 1 => 10 * tenPow n
 
 def Lit.value : Lit → Option Value
   | .null => some .null
@@ -201,12 +207,16 @@ def evalDoc (ρ : Env) : SExpr → Option Value
   | .caseEnd => some .null
   | .inRange x lo hi =>
     -- `lo..hi` with `null` written for a bound is the open range
-    if isNullLit lo && isNullLit hi then do let _ ← evalDoc ρ x; pure (ofBool true)
+    if isNullLit lo && isNullLit hi then some (ofBool true)
     else if isNullLit lo then do vCmp .le (← evalDoc ρ x) (← evalDoc ρ hi)
     else if isNullLit hi then do vCmp .ge (← evalDoc ρ x) (← evalDoc ρ lo)
     else do betweenVal (← evalDoc ρ x) (← evalDoc ρ lo) (← evalDoc ρ hi)
   | .fn1 f x => do pure (fn1Val f (← evalDoc ρ x))
-  | .call2 o l r => do binVal o (← evalDoc ρ l) (← evalDoc ρ r)
+  | .call2 o l r =>
+    -- a function is a template: `f_eq x null` means `x == null`
+    if isEqNe o && isNullLit l then do nullTest o (← evalDoc ρ r)
+    else if isEqNe o && isNullLit r then do nullTest o (← evalDoc ρ l)
+    else do binVal o (← evalDoc ρ l) (← evalDoc ρ r)
 
 def PExpr.isNullLit : PExpr → Bool
   | .lit .null => true
